@@ -2,6 +2,7 @@ package sx
 
 import (
 	"fmt"
+	"os"
 	"go/types"
 	"sort"
 	"strings"
@@ -453,6 +454,14 @@ func (m *Machine) solve(extra *Term) (Result, Model) {
 		m.Stats.CegarIters++
 		if added == 0 {
 			m.note("model does not evaluate to true natively and no refinement is possible")
+			if os.Getenv("GOSX_DEBUG") != "" {
+				for _, c := range append([]*Term{extra}, m.pc...) {
+					if m.st.EvalMemo(c, md, memo) == 0 {
+						fmt.Fprintf(os.Stderr, "MISMATCH term: %s\nmodel: %v\n", m.st.Dump(c, md, memo, 0), md)
+						break
+					}
+				}
+			}
 			return Unknown, nil
 		}
 	}
